@@ -49,6 +49,8 @@ def jobs(tier, seed):
         for dt in ('int32', 'uint8'):
             out.append({'name': 'astar-3x3-c8-%s-%d%d-%d%d' % (dt, s_[0], s_[1], g_[0], g_[1]), 'kind': 'astar', 'shape': [3, 3], 'start': list(s_), 'goal': list(g_),
                         'conn': 8, 'snap': [False, False], 'barrier': True, 'dtype': dt})
+    out.append({'name': 'astar-2x3-lat-lon-dims', 'kind': 'astar', 'shape': [2, 3], 'start': [1, 0], 'goal': [0, 2], 'conn': 8, 'snap': [False, True], 'barrier': False,
+                'dims': ['lat', 'lon']})
     # barriers + snapping on a smaller grid
     p23 = pairs(2, 3)
     selb = pick(p23, 6 if tier == 'quick' else len(p23), seed + 2, always=[5])
@@ -113,13 +115,14 @@ def body(ctx, job):
     data = ctx.array('d', (h, w), dt, nan=True, **({'lo': 0, 'hi': 1} if dt[0] in 'iu' else {}))
     ys = coords_affine(h, float(h - 1) * 2.0, -2.0)      # descending y, step 2
     xs = coords_affine(w, 10.0, 0.5)                     # ascending x, step 0.5
-    surf = raster(data, ys=ys, xs=xs, attrs={'res': (0.5, 2.0)}, name='surface')
+    dn = tuple(job.get('dims', ('y', 'x')))
+    surf = raster(data, dims=dn, ys=ys, xs=xs, attrs={'res': (0.5, 2.0)}, name='surface')
     barriers = []
     if job['barrier']:
         barriers = [ctx.real('barrier')] if dt[0] not in 'iu' else [0]
     start = (float(ys[s[0]]), float(xs[s[1]]))
     goal = (float(ys[g[0]]), float(xs[g[1]]))
-    res = ctx.call('pathfinding:a_star_search', surf, start, goal, barriers, 'x', 'y', conn, job['snap'][0], job['snap'][1])
+    res = ctx.call('pathfinding:a_star_search', surf, start, goal, barriers, dn[1], dn[0], conn, job['snap'][0], job['snap'][1])
     out = vals(res)
     ctx.observe('out', out)
     # crossability, decided per path (the reference forks exactly like a user inspecting the raster would)
